@@ -58,7 +58,16 @@ GoodBase ==
 
 \* leaf types: ConGen's (constraints written on references are C11's subject -- three open
 \* deviations there -- and are not corrupted here) plus every kind the type checker knows
-CorPrimTypes == SelectSeq(ConPrimTypes, LAMBDA t : t.k # "REF") \o <<TNull, TOid, TReal>> \o EnumTypes
+\* a CHOICE as the element of a SEQUENCE OF / SET OF, its alternatives holding mandatory members and ENUMERATED
+\* items: the codecs have separate code for list elements (XER: encode_of), with its own location bookkeeping
+CorElemChoice ==
+  TChoice(<<Alt("x", Tagged(TSeq("SEQ", <<Mand("m", TBool), Mand("e", EnumTypes[2])>>, FALSE, <<>>), Tag("C", 0, "D"))),
+            Alt("k", Tagged(EnumTypes[2], Tag("C", 1, "D"))),
+            Alt("b", Tagged(TBool, Tag("C", 2, "D")))>>, FALSE, <<>>)
+CorListOfChoice ==
+  TSeq("SEQ", <<Mand("l", TOf("SEQOF", CorElemChoice, NoSz)), Mand("s", TOf("SETOF", CorElemChoice, Sz(0, 3, FALSE)))>>, FALSE, <<>>)
+
+CorPrimTypes == <<CorListOfChoice>> \o SelectSeq(ConPrimTypes, LAMBDA t : t.k # "REF") \o <<TNull, TOid, TReal>> \o EnumTypes
 CorCarriers == SelectSeq(ConCarriers, LAMBDA t : t.k # "REF")
                \o <<TBool, TNull, TOid, TReal, TIntN, EnumTypes[2], EnumTypes[6], BitsTypes[1], OctsTypes[1], StrTypes[1]>>
 
